@@ -31,6 +31,38 @@ def mc_stage(ctx, configs, invariants_note, negatives=()):
     ctx.exhaustive = True
 
 
+def abs_stage(ctx, configs):
+    """The atomic specification (one explain_one call = one step) checked on its own: deeper call sequences."""
+    for c in configs:
+        r = tlc.require_ok(tlc.run("MC_AbsExplainer", "MC_AbsExplainer_" + c, coverage=True, tag=ctx.pid.lower() + "abs"), c)
+        if r.status != "ok":
+            raise tlc.TLCError("AbsExplainer(%s) violates its own property %s\n%s" % (c, r.violated, r.counterexample[:3000]))
+        ctx.add_tlc("MC_AbsExplainer_%s (atomic level): AEfficiency ALockStep AVarNonNegative AKeys AStoreBound "
+                    "AMargPredNormalised AMonotone" % c, r)
+
+
+def refine_stage(ctx, configs, negatives=(), exists_form=()):
+    """Refinement IncExplainer (micro steps, faults) => AbsExplainer (atomic) under the mapping of
+    Refine_IncExplainer.tla; the pre-repair commit order (negatives) must not refine."""
+    for c in configs:
+        r = tlc.require_ok(tlc.run("Refine_IncExplainer", "Refine_IncExplainer_" + c, tag=ctx.pid.lower() + "ref"), c)
+        if r.status != "ok":
+            raise tlc.TLCError("IncExplainer(%s) does not refine AbsExplainer: %s\n%s" % (c, r.violated, r.counterexample[:3000]))
+        ctx.add_tlc("refinement IncExplainer_%s => AbsExplainer (a failed call stutters, a returning call is one "
+                    "Explain step with the call's own order / draws / reservoir choice)" % c, r, kind="refinement")
+    for c in exists_form:
+        r = tlc.require_ok(tlc.run("Refine_IncExplainer", "Refine_IncExplainer_%s_ex" % c, tag=ctx.pid.lower() + "refx"), c)
+        if r.status != "ok":
+            raise tlc.TLCError("IncExplainer(%s) does not implement AbsExplainer!ASpec: %s" % (c, r.violated))
+        ctx.add_tlc("refinement IncExplainer_%s => AbsExplainer!ASpec (existential form)" % c, r, kind="refinement")
+    for c in negatives:
+        r = tlc.require_ok(tlc.run("Refine_IncExplainer", "Refine_IncExplainer_" + c, tag=ctx.pid.lower() + "refneg"), c)
+        if r.status != "violation" or "Refines" not in str(r.violated):
+            raise tlc.TLCError("negative control %s: the old commit order was not refuted as a refinement (status %s / %s)"
+                               % (c, r.status, r.violated))
+        ctx.add_tlc("negative control %s (old commit order) does not refine AbsExplainer" % c, r, kind="negative_control")
+
+
 def replay_stage(ctx, logcfgs, wanted, limit=None, rng=None):
     """Direction A: export behaviours from MC_IncExplainerLog and replay them into the real classes.
     wanted(clause) -> bool selects the comparison clauses that belong to the calling property."""
